@@ -241,3 +241,21 @@ PROPS["C05"] = {
     "trusted": CODEC_TRUSTED,
     "assumptions": ["platform: amd64 (DESIGN 10.5)"],
 }
+
+PROPS["C20"] = {
+    "level_text": "Theorems (Props/C20.v) over tables REGENERATED from source on every run (the stringer table of CANDataIdentifier interpreted for all 256 values, UnmarshalText's candidate list and loop shape, the constant list, CANBaudRate.ID, Ack, IsAck): every named identifier parses back from its text; for EVERY text, acceptance implies it is the name of a named identifier (so everything else is rejected); names equal the constant names, are pairwise distinct, 27 = 27; for EVERY integer rate the 13 supported ones map to their protocol codes (distinct, 0..127) and all others to -1; Ack(m) = m+1 below 255; IsAck(m) <-> m odd for all 256. Exhaustive correspondence over values, near-miss texts, a rate sweep.",
+    "level_note": "Trusted: Coq kernel + vm_compute; translator (stringer interpreter, table extraction, expression rendering); protocol tables in Spec/ProtocolTables.v; harness. No axioms.",
+    "technique": "Rocq proof over translator-generated tables (finite sweeps + general case analysis) + exhaustive correspondence",
+    "props_file": "Props/C20.v",
+    "eval_module": "Run.EvalTables",
+    "kinds": {
+        "canid": {"type": "case_canid", "chk": "chk_canid", "sig": "sig_canid", "scope": "Z_scope"},
+        "cantext": {"type": "case_cantext", "chk": "chk_cantext", "sig": "sig_cantext", "scope": "Z_scope"},
+        "baud": {"type": "case_baud", "chk": "chk_baud", "sig": "sig_baud", "scope": "Z_scope"},
+        "ack": {"type": "case_ack", "chk": "chk_ack", "sig": "sig_ack", "scope": "Z_scope"},
+    },
+    "exhaustive": True,
+    "rule": "canid: all 256 values: String() and UnmarshalText(String()). cantext: near-miss texts derived from every name (truncated, extended, case-changed, shifted, one character flipped, padded), default-format texts, random printable texts. baud: the 13 supported rates, neighbours, extremes, random rates. ack: all 256 message identifiers. non-trivial = named identifier / accepted text / supported rate / every identifier; distinct = distinct case terms",
+    "trusted": [],
+    "assumptions": ["texts containing a double quote or NUL are not generated (Coq string literal syntax)"],
+}
